@@ -104,6 +104,7 @@ class BufferedWriteFile:
         self.closed = False
         self.mode = mode
         self.name = path
+        self.real = _real_open(path, "wb")     # the truncating / creating open is visible at once; kept open like a real descriptor
 
     def write(self, data):
         if self.c.dead:
@@ -126,8 +127,9 @@ class BufferedWriteFile:
             data = b""
         elif res == "partial":
             data = data[:max(0, len(data) // 2)]
-        with _real_open(self.path, "wb") as f:
-            f.write(data)
+        # through the descriptor opened at open time: the data goes to the INODE, wherever it has been renamed to meanwhile
+        self.real.write(data)
+        self.real.close()
         self.closed = True
 
     def flush(self):
@@ -138,11 +140,15 @@ class BufferedWriteFile:
             return
         if self.c.dead:          # unwinding after the crash: nothing more reaches the disk
             self.closed = True
+            try:
+                self.real.close()
+            except Exception:
+                pass
             return
 
         def do():
-            with _real_open(self.path, "wb") as f:
-                f.write(self._data())
+            self.real.write(self._data())
+            self.real.close()
             # the file is complete and closed now: a crash right AFTER the close must not touch it any more
             self.closed = True
             if self in self.c.open_files:
@@ -214,7 +220,6 @@ def _open(file, mode="r", *args, **kwargs):
     def do():
         if EXIT_MODE:
             return CountingRealFile(c, rel, _real_open(file, mode, *args, **kwargs))
-        _real_open(path, "wb").close()     # the truncating / creating open is visible at once
         f = BufferedWriteFile(c, rel, path, mode, kwargs)
         c.open_files.append(f)
         return f
